@@ -1,6 +1,7 @@
 package task
 
 import (
+	"fmt"
 	"slices"
 
 	"github.com/go-task/task/v3/errors"
@@ -47,10 +48,18 @@ func (e *Executor) areTaskRequiredVarsAllowedValuesSet(t *ast.Task) error {
 		if requiredVar == nil {
 			continue
 		}
-		varValue, _ := t.Vars.Get(requiredVar.Name)
+		varValue, ok := t.Vars.Get(requiredVar.Name)
+		if !ok || requiredVar.Enum == nil {
+			continue
+		}
 
+		// The allowed values are strings: a number or a boolean is compared the
+		// way it is printed ("3", "true"), anything else is not allowed.
 		value, isString := varValue.Value.(string)
-		if isString && requiredVar.Enum != nil && !slices.Contains(requiredVar.Enum, value) {
+		if !isString {
+			value = fmt.Sprint(varValue.Value)
+		}
+		if !slices.Contains(requiredVar.Enum, value) {
 			notAllowedValuesVars = append(notAllowedValuesVars, errors.NotAllowedVar{
 				Value: value,
 				Enum:  requiredVar.Enum,
